@@ -123,8 +123,10 @@ def callee(t):
     info = t[1]
     c = info.get("f") or info.get("o") or ""
     # "#virtual" / "#fnptrshim" ... mark the instance kind; rules match on the path
-    i = c.find("#")
-    return c if i < 0 else c[:i]
+    for suf in ("#virtual", "#fnptrshim", "#dropglue", "#cloneshim"):
+        if c.endswith(suf):
+            return c[:-len(suf)]
+    return c
 
 
 def callee_orig(t):
